@@ -56,7 +56,7 @@ CHECKS = {
    text="Concurrent writers on both FIFOs (window 0..unbounded), 50-500 sessions, events up to 64 KiB; every output line must decode as exactly one JSON audit event with mandatory fields, no event key twice, each UserAction after the UserLogin carrying its identity. In-process: shared writer over the recorder, login line and LOGIN record released at the same instant, UserLogin write returns before any UserAction write with its identity starts. Thorough adds the -race daemon. A burst scenario keeps both pipelines writing for as long as the slower one needs, and a phased scenario delivers all audit records before any sshd line (every UserAction then comes from a hold-queue flush).",
    note="O_APPEND single-write atomicity is an observed OS property.", ref="4 C10"),
  "C03": dict(engine="mon-sched", cat="exploration", tech="controlled-schedule execution of the real code at hooked lock sites (exhaustive DFS re-execution for small programs, seeded random/priority schedules for larger ones) with a relative-atomicity oracle; Go race detector on perturbed free-running executions, Auditd.Read wiring and the -race daemon",
-   text="Ten small concurrent programs on one tracker are explored exhaustively at lock-acquisition granularity: the emitted events must equal what some sequential merge of the same operations produces when run against the same code, and no schedule may deadlock. Larger programs run under seeded random and priority schedules. Under -race the same programs run free with delays injected at the lock sites, Auditd.Read gets both halves of a session at the same instant, and the -race daemon is driven with concurrent writers; any race report is a violation. Programs include a cleanup racing one session's correlation while the other session's pending login (P9) or pending LOGIN record (P10) waits, with the other half arriving afterwards; trackers run with debug- and info-level loggers.",
+   text="Twelve small concurrent programs on one tracker are explored exhaustively at lock-acquisition granularity: the emitted events must equal what some sequential merge of the same operations produces when run against the same code, and no schedule may deadlock. Larger programs run under seeded random and priority schedules. Under -race the same programs run free with delays injected at the lock sites, Auditd.Read gets both halves of a session at the same instant, and the -race daemon is driven with concurrent writers; any race report is a violation. Programs include a cleanup racing one session's correlation while the other session's pending login (P9) or pending LOGIN record (P10) waits, with the other half arriving afterwards, and a parked login expiring while its LOGIN record is processed, the login line being delivered again afterwards (P11, P12); trackers run with debug- and info-level loggers.",
    note="Schedule points are the hooked lock sites only; exhaustive at that granularity, sound for data-race-free code.", ref="4 C03, 3.1"),
  "C18": dict(engine="mon-health", cat="exploration", tech="sequential reference-model monitor (bounded-exhaustive), controlled-schedule exploration at hooked lock sites, porcupine linearizability checking of recorded histories, -race perturbed histories, logical-clock check of WaitForReady",
    text="Every Add/OnReady/Get sequence of the stated length against the 15-line map model; five concurrent programs explored exhaustively at lock granularity and 8-goroutine free-running histories under -race: every /readyz response is checked for internal consistency (code vs overall vs components) and every history for linearizability against the sequential map; WaitForReady must not fire before the last component was marked ready and must yield the context error when cancelled first. WaitForReady is also cancelled first and the components marked ready afterwards (the context error must still be what it yields).",
